@@ -163,7 +163,7 @@ func TestVerifC06(t *testing.T) {
 	}
 	r.Bounds["type_term_depth"] = depth
 	r.Bounds["accessor_chain_length"] = chainLen
-	r.Extra["rule"] = "accessor chains of length <= 3 over {.y, .z, .*, [0], ['y']} on <root>.x in 34 contexts x roots {matrix, steps, needs, inputs, secrets, jobs} typed {x: T} for every type term T up to the depth bound x every single loosening (sub-term -> any, strict -> open object); oracle: an expression without diagnostics under the original environment has none under the loosened one; end-to-end: 4 literal-vs-dynamic definition pairs x consumer expressions, and every include list of 1-3 elements over 4 element forms with one known element made unknown x 8 consumers, every row list of 1-3 elements over 5 element forms likewise x 9 consumers (+ a typed position), 12 typed positions (timeouts, booleans, call-input defaults) x value of known type made unknown, through Linter.Lint. class = message skeleton that disappears or stays; non-trivial = original environment reports something"
+	r.Extra["rule"] = "accessor chains of length <= 3 over {.y, .z, .*, [0], ['y']} on <root>.x in 34 contexts x roots {matrix, steps, needs, inputs, secrets, jobs} typed {x: T} for every type term T up to the depth bound x every single loosening (sub-term -> any, strict -> open object); oracle: an expression without diagnostics under the original environment has none under the loosened one; end-to-end: 4 literal-vs-dynamic definition pairs x consumer expressions, and every include list of 1-3 elements over 4 element forms with one known element made unknown x 8 consumers, every row list of 1-3 elements over 5 element forms likewise x 9 consumers (+ a typed position), 15 typed positions (timeouts, booleans, call-input defaults, runs-on) x value of known type made unknown, through Linter.Lint. class = message skeleton that disappears or stays; non-trivial = original environment reports something"
 	r.Extra["assumptions"] = []string{"environments type one property x of one context at a time", "message identity is compared modulo quoted names and type renderings"}
 
 	if raw := vReplayInput(); raw != nil {
@@ -447,18 +447,35 @@ func TestVerifC06(t *testing.T) {
 			"call-input-default-boolean":     "on:\n  workflow_call:\n    inputs:\n      n:\n        type: boolean\n        default: §\n" + job + steps,
 			"call-input-default-string":      "on:\n  workflow_call:\n    inputs:\n      n:\n        type: string\n        default: §\n" + job + steps,
 			"call-input-default-second":      "on:\n  workflow_call:\n    inputs:\n      first:\n        type: string\n      n:\n        type: number\n        default: §\n      b:\n        type: boolean\n        default: §\n" + job + steps,
+			"runs-on-expression":             "on: push\njobs:\n  a:\n    runs-on: §\n" + steps,
+			"runs-on-labels-element":         "on: push\njobs:\n  a:\n    runs-on: [self-hosted, §]\n" + steps,
+			"runs-on-group-labels":           "on: push\njobs:\n  a:\n    runs-on:\n      group: g\n      labels: §\n" + steps,
 			"call-output-value":              "on:\n  workflow_call:\n    outputs:\n      o:\n        value: §\n" + job + steps,
 		}
-		known := []string{"${{ 10 }}", "${{ true }}", "${{ 'x' }}", "${{ github.run_attempt }}", "${{ null }}"}
-		unknown := []string{"${{ fromJSON(vars.X) }}", "${{ github.event.inputs.debug }}", "${{ github.event.repository.private }}", "${{ vars.X && fromJSON(vars.X) || 10 }}", "${{ fromJSON(vars.X).a[0] }}"}
+		anyForms := []string{"${{ fromJSON(vars.X) }}", "${{ github.event.inputs.debug }}", "${{ github.event.repository.private }}", "${{ vars.X && fromJSON(vars.X) || 10 }}", "${{ fromJSON(vars.X).a[0] }}"}
+		// arrays whose ELEMENT type is unknown
+		arrayOfAny := []string{"${{ fromJSON(vars.X).*.label }}", "${{ github.event.client_payload.runners.*.label }}", "${{ fromJSON('[]') }}"}
+		// (value of known type, the same value with its type or a part of its type made unknown)
+		type lp struct {
+			known   string
+			loosers []string
+		}
+		var pairs []lp
+		for _, k := range []string{"${{ 10 }}", "${{ true }}", "${{ 'x' }}", "${{ github.run_attempt }}", "${{ null }}"} {
+			pairs = append(pairs, lp{k, anyForms})
+		}
+		for _, k := range []string{"${{ fromJSON('[\"a\", \"b\"]') }}", "${{ fromJSON('[1]') }}"} {
+			pairs = append(pairs, lp{k, append(append([]string{}, anyForms...), arrayOfAny...)})
+		}
+		pairs = append(pairs, lp{"${{ fromJSON('{\"a\": 1}') }}", append(append([]string{}, anyForms...), "${{ github.event.client_payload }}")})
 		for _, name := range vSortedKeys(typed) {
-			for _, k := range known {
-				for _, u := range unknown {
+			for _, pr := range pairs {
+				for _, u := range pr.loosers {
 					idx++
 					if !r.Mine(idx) {
 						continue
 					}
-					c06E2ECompare(r, strings.ReplaceAll(typed[name], "§", k), strings.ReplaceAll(typed[name], "§", u), "typed-position-value-unknown:"+name)
+					c06E2ECompare(r, strings.ReplaceAll(typed[name], "§", pr.known), strings.ReplaceAll(typed[name], "§", u), "typed-position-value-unknown:"+name)
 				}
 			}
 		}
